@@ -10,6 +10,7 @@ re-emission of filter arguments (C19) are not decided."""
 import ast
 
 from ..core import rule, AnalysisError
+from ..engine import pattern as P
 from ..engine.facts import dotted, const, src, walk_func, enclosing_stmt
 from .common import calls
 
@@ -133,9 +134,9 @@ def wrap_order(ctx):
     ctx.check(bool(rets) and src(rets[-1].value) == "target", "returns-target", db.where(fn), "returns %s" % (src(rets[-1].value) if rets else None), "returns the folded target")
     le = db.func("codegen._GenerateRenderMethod.create_filter_callable.locate_encode")
     t = src(le)
-    ctx.check("'filters.' + name" in t and "filters.DEFAULT_ESCAPES.get(name, name)" in t and "decode\\\\..+" in t, "locate", db.where(le), "locate_encode no longer maps decode.<enc> to filters.decode.<enc> and other names through DEFAULT_ESCAPES (unknown names unchanged)", "decode.x -> filters.decode.x ; flag -> DEFAULT_ESCAPES ; other name unchanged")
+    ctx.check(P.has(le, "'filters.' + $n") and P.has(le, "filters.DEFAULT_ESCAPES.get($n, $n)") and "decode" in t, "locate", db.where(le), "locate_encode no longer maps decode.<enc> to filters.decode.<enc> and other names through DEFAULT_ESCAPES (unknown names unchanged)", "decode.x -> filters.decode.x ; flag -> DEFAULT_ESCAPES ; other name unchanged")
     t = src(lp)
-    ctx.check("locate_encode(ident)" in t and "f + fargs" in t, "call-filters", db.where(lp), "filters written as calls lose their arguments or are not resolved by name", "name resolved, arguments kept")
+    ctx.check(P.has(lp, "($i, $a) = $m.group(1, 2)\n$f = locate_encode($i)\n$e = $f + $a"), "call-filters", db.where(lp), "filters written as calls lose their arguments or are not resolved by name", "name resolved, arguments kept")
     wt = db.func("codegen._GenerateRenderMethod.write_toplevel")
     imp = [c for c in calls(wt, "self.printer.writeline") if const(c.args[0]) and str(const(c.args[0])).startswith("from mako import")]
     ok = bool(imp) and {"runtime", "filters", "cache"} <= set(const(imp[0].args[0]).replace("from mako import", "").replace(" ", "").split(","))
@@ -174,7 +175,7 @@ def sites(ctx):
     ctx.check(ok, "buffer_filters.cached", db.where(wc), "buffer_filters are not applied by the cache wrapper of a buffered def", "cached buffered defs: wrapper applies buffer_filters")
     ti = db.func("template.Template.__init__")
     t = src(ti)
-    ctx.check("if default_filters is None:" in t and "self.default_filters = ['str']" in t, "default-str", db.where(ti), "default_filters does not default to ['str']", "default_filters None -> ['str']")
+    ctx.check(P.has(ti, "if $d is None:\n    self.default_filters = ['str']\nelse:\n    self.default_filters = $d"), "default-str", db.where(ti), "default_filters does not default to ['str']", "default_filters None -> ['str']")
 
 
 def _anc(n):
